@@ -1,4 +1,5 @@
 """C03 — analysis-driven pruning never changes what a program does (mechanism integrity)."""
+from ..flow import chain_blocks, origins
 import re
 import json
 
@@ -662,7 +663,168 @@ def r4c_summaries_are_a_transitive_closure(ctx):
         ctx.bad("closure|init|shape", ini.where(), "cannot see how initialize_summaries builds a FunctionSummary")
 
 
-RULES = [("C03-R1", r1_plan_only_from_pure), ("C03-R1b", r1b_capture_write_is_an_effect), ("C03-R2", r2_effect_tables), ("C03-R3", r3_plan_consulted), ("C03-R4", r4_dataflow_shape), ("C03-R4b", r4b_reads_and_writes_reach_the_summaries), ("C03-R4c", r4c_summaries_are_a_transitive_closure)]
+def r5_loop_cfg_shape(ctx):
+    """The control-flow graph the liveness analysis runs on has the loop the language has: the condition block is entered from
+    before the loop, from the end of the body and from `next`; its true edge enters the body, its false edge is where `comot`
+    and the code after the loop continue.  Block ids are all of one type, so a swap still compiles; each id is identified here
+    by the call that created it."""
+    from ..mir import fields_read
+    fn = ctx.need("analysis::cfg::FunctionBuilder::lower_stmt")
+    ctx.touch(fn)
+
+    def ident(op, depth=0):
+        out = set()
+        for bi, k, det in origins(fn, op, 8):
+            if k == "agg" and str(det[0]).endswith("Option") and det[1] == "Some" and depth < 3:
+                out |= ident(det[2][0], depth + 1)
+            elif k == "call":
+                out.add((chain_blocks(bi)[-1], det[0].split("::")[-1]))
+            else:
+                out.add((None, "%s:%s" % (k, det if not isinstance(det, tuple) else det[0])))
+        return out
+    S = None
+    for cand in sorted(fn.live):
+        if fn.blocks[cand]["t"]["k"] == "switch":
+            si = fn.switch_info(cand)
+            if si["kind"] == "discr" and "parser::Stmt" in si["ty"]:
+                S = (cand, si)
+                break
+    if S is None:
+        ctx.bad("loop-cfg|no-dispatch", fn.where(), "lower_stmt does not dispatch on the statement kind")
+        return
+    S, si = S
+    arm = None
+    for lab, tgt in fn.succ[S]:
+        if label_names(fn, S, [lab], si) == {"Loop"}:
+            arm = {b for b in fn.live if fn.edge_dominated(b, S, [lab])} | {tgt}
+    if not arm:
+        ctx.bad("loop-cfg|no-arm", fn.where(), "lower_stmt has no arm of its own for Loop statements")
+        return
+    calls = [c for c in fn.calls() if c.block in arm]
+    ps = [c for c in calls if (c.callee or "").endswith("::push_stmt")]
+    bt = [c for c in calls if (c.callee or "").endswith("::branch_terminator")]
+    lb = [c for c in calls if (c.callee or "").endswith("::lower_block")]
+    if len(ps) != 1 or len(bt) != 1 or len(lb) != 1:
+        ctx.bad("loop-cfg|shape", fn.where(sorted(arm)[0]), "the Loop arm no longer has one push_stmt (condition), one branch_terminator and one lower_block (body): %d/%d/%d" % (len(ps), len(bt), len(lb)))
+        return
+    COND = ident(ps[0].args[2])
+    BODY = ident(bt[0].args[3])
+    EXIT = ident(bt[0].args[4])
+    if len(COND) != 1 or len(BODY) != 1 or len(EXIT) != 1 or len(COND | BODY | EXIT) != 3:
+        ctx.bad("loop-cfg|blocks", fn.where(ps[0].block), "condition / body / exit blocks of a loop are not three distinct fresh blocks (%s %s %s)" % (COND, BODY, EXIT))
+        return
+
+    def check(key, got, want, what):
+        if got == want:
+            ctx.ok("loop-cfg|" + key, fn.where(sorted(arm)[0]), what)
+        else:
+            names = {frozenset(COND): "the condition block", frozenset(BODY): "the body entry", frozenset(EXIT): "the exit block"}
+            ctx.bad("loop-cfg|" + key, fn.where(sorted(arm)[0]), "%s: it is %s, it has to be %s. Liveness then follows edges the program never takes (or misses ones it does): an assignment that is read on the real path looks dead and is pruned" % (what, names.get(frozenset(got), sorted(got)), names.get(frozenset(want))))
+    # the branch sits on the condition block
+    st = [c for c in calls if (c.callee or "").endswith("::set_terminator") and any(k == "branch_terminator" for _, k in ident(c.args[2]))]
+    check("branch-on-condition-block", ident(st[0].args[1]) if st else set(), COND, "the two-way branch is the terminator of the block that holds the condition")
+    # LoopContext { break_target, continue_target, .. }
+    fields = [f[0] for f in ctx.lib.adt("analysis::cfg::LoopContext")["variants"][0]["fields"]]
+    lc = [(b, stt["rv"]) for b in sorted(arm) for stt in fn.blocks[b]["s"] if stt["rv"]["k"] == "agg" and str(stt["rv"].get("adt", "")).endswith("LoopContext")]
+    if len(lc) == 1 and "break_target" in fields and "continue_target" in fields:
+        ops = lc[0][1]["ops"]
+        check("break-target", ident(ops[fields.index("break_target")]), EXIT, "`comot` continues at the loop's exit block")
+        check("continue-target", ident(ops[fields.index("continue_target")]), COND, "`next` continues at the condition block (the condition is evaluated again)")
+    else:
+        ctx.bad("loop-cfg|context", fn.where(sorted(arm)[0]), "cannot see the LoopContext the body is lowered with")
+    # the body is lowered starting at the body entry
+    cur = lb[0].args[2]
+    got = set()
+    for bi, k, det in origins(fn, cur, 6):
+        if k == "agg" and str(det[0]).endswith("Cursor"):
+            got |= ident(det[2][0])
+    check("body-entry", got, BODY, "the body is lowered into the block the branch's true edge enters")
+    # every Goto built in the arm goes to the condition block (from before the loop and from the end of the body)
+    gotos = [(b, stt["rv"]) for b in sorted(arm) for stt in fn.blocks[b]["s"] if stt["rv"]["k"] == "agg" and str(stt["rv"].get("adt", "")).endswith("Terminator") and stt["rv"].get("variant") == "Goto"]
+    for i, (b, rv) in enumerate(gotos):
+        check("goto-condition#%d" % (i + 1), ident(rv["ops"][0]), COND, "entry into the loop and the end of the body jump to the condition block")
+    ctx.floor("jumps to the condition block", len(gotos), 2)
+    # the statements after the loop are lowered into the exit block
+    rets = [(b, stt["rv"]) for b in sorted(arm) for stt in fn.blocks[b]["s"] if stt["lhs"]["l"] == 0 and not stt["lhs"]["p"] and stt["rv"]["k"] == "agg" and str(stt["rv"].get("adt", "")).endswith("Cursor")]
+    if rets:
+        check("continues-at-exit", ident(rets[-1][1]["ops"][0]), EXIT, "code after the loop continues in the exit block")
+    # Break reads break_target, Continue reads continue_target
+    for kind, field in (("Break", "break_target"), ("Continue", "continue_target")):
+        blocks = [b for b in sorted(fn.live) for stt in fn.blocks[b]["s"] if stt["rv"]["k"] == "agg" and str(stt["rv"].get("adt", "")).endswith("Terminator") and stt["rv"].get("variant") == kind]
+        ok = False
+        for b in blocks:
+            rv = [stt["rv"] for stt in fn.blocks[b]["s"] if stt["rv"]["k"] == "agg" and stt["rv"].get("variant") == kind][0]
+            for o in rv["ops"]:
+                t = sh(ne(fn.deep(o)))
+                m = re.search(r"(\{closure#\d+\})", t)
+                if m:
+                    clo = ctx.lib.fns.get(fn.id + "::" + m.group(1))
+                    if clo is not None:
+                        rd = set(fields_read(clo, "LoopContext"))
+                        ok = rd == {field}
+                        if not ok:
+                            ctx.bad("loop-cfg|%s-reads|%s" % (kind.lower(), ",".join(sorted(rd))), fn.where(b), "the %s terminator takes its target from LoopContext.%s instead of .%s" % (kind, sorted(rd), field))
+                if field in t:
+                    ok = True
+        if ok:
+            ctx.ok("loop-cfg|%s-reads-%s" % (kind.lower(), field), fn.where(blocks[0]) if blocks else fn.where(), "%s terminator targets LoopContext.%s" % (kind, field))
+        elif not any(r["rule"] == ctx.rule and r["status"] == "violation" and ("%s-reads" % kind.lower()) in r["instance"] for r in ctx.records):
+            ctx.bad("loop-cfg|%s-target" % kind.lower(), fn.where(), "cannot see where the %s terminator takes its target from" % kind)
+
+
+def r4d_bitset_arithmetic_agrees(ctx):
+    """The liveness sets are words of bits.  Every helper that turns a local's index into (word, bit) - set, clear, test, fill,
+    size - divides and reduces by the same number, and that number is the bit width of the word type.  One helper with another
+    constant makes a local's bit unreachable for it (never set, or never cleared): every assignment to such a local looks dead."""
+    helpers = {}
+    for fid, fn in sorted(ctx.lib.fns.items()):
+        if not fid.startswith("analysis::liveness::") or "{closure" in fid:
+            continue
+        ops = []
+        for b in sorted(fn.live):
+            for st in fn.blocks[b]["s"]:
+                rv = st["rv"]
+                if rv["k"] == "bin" and rv["op"] in ("Div", "Rem"):
+                    t = sh(ne(fn.expr(rv["b"], 4)))
+                    ops.append((rv["op"], int(t) if t.isdigit() else t[:12], b))
+                if rv["k"] == "bin" and rv["op"] in ("Shl", "ShlUnchecked"):
+                    ops.append(("ShlTy", fn.locals[st["lhs"]["l"]]["ty"], b))
+        for c in fn.calls():
+            if (c.callee or "").split("::")[-1] == "div_ceil":
+                t = sh(ne(fn.deep(c.args[1])))
+                ops.append(("Div", int(t) if t.isdigit() else t[:12], c.block))
+        if ops:
+            helpers[fid] = (fn, ops)
+    n = 0
+    widths = {"u64": 64, "u32": 32, "u128": 128, "u16": 16, "u8": 8, "usize": 64}
+    word = None
+    for fid, (fn, ops) in helpers.items():
+        for kind, v, b in ops:
+            if kind == "ShlTy":
+                word = word or v
+    want = widths.get(word or "", None)
+    if want is None:
+        ctx.bad("bitset|word-type", "src/analysis/liveness.rs", "cannot determine the word type of the liveness bit sets (mask type `%s`)" % word)
+        return
+    for fid, (fn, ops) in sorted(helpers.items()):
+        ctx.touch(fn)
+        short = fid.split("::")[-1]
+        for kind, v, b in ops:
+            n += 1
+            if kind == "ShlTy":
+                if v == word:
+                    ctx.ok("bitset|%s|mask-type" % short, fn.where(b), "mask built in %s" % v)
+                else:
+                    ctx.bad("bitset|%s|mask-type|%s" % (short, v), fn.where(b), "%s builds its bit mask in %s while the sets are words of %s" % (short, v, word))
+            else:
+                if v == want:
+                    ctx.ok("bitset|%s|%s-by-%d" % (short, kind.lower(), want), fn.where(b), "index %s %d" % ("/" if kind == "Div" else "%", want))
+                else:
+                    ctx.bad("bitset|%s|%s-by-%s" % (short, kind.lower(), v), fn.where(b), "%s computes the %s with %s, the sets are words of %d bits (%s) and the other helpers use %d: locals whose index is %s or more get a bit this helper never touches, so what one helper sets another cannot see - a live variable is reported dead and its assignment pruned" % (short, "word index" if kind == "Div" else "bit index", v, want, word, want, v))
+    ctx.floor("index computations in the liveness bit-set helpers", n, 10)
+
+
+RULES = [("C03-R1", r1_plan_only_from_pure), ("C03-R1b", r1b_capture_write_is_an_effect), ("C03-R2", r2_effect_tables), ("C03-R3", r3_plan_consulted), ("C03-R4", r4_dataflow_shape), ("C03-R4b", r4b_reads_and_writes_reach_the_summaries), ("C03-R4c", r4c_summaries_are_a_transitive_closure), ("C03-R4d", r4d_bitset_arithmetic_agrees), ("C03-R5", r5_loop_cfg_shape)]
 
 EXPLANATION = (
     "R1: in build_optimization_plan every push into the removable sets is edge-dominated by the test that justifies it "
